@@ -1,5 +1,6 @@
 """C17 rank/select and wavelet matrix — GD-6 (domain refusals), SB-9 (select_0/select_1 and constructor pair the
 matching superblock table, predicate and popcount), TB-7 (DNA2INT code table)."""
+import re
 from . import eng_gd
 from .mirlib import call_info, strip, strip_casts, fmt, walk
 
@@ -61,14 +62,38 @@ def gd6(facts, rep):
         rep.analysed_body(b)
         calls = [call_info(t)['fn'] for _bb, t in b.calls() if call_info(t)]
         ok = any(c.endswith('RankSelect::rank_1') for c in calls)
-        expr = None
+        # the value delivered inside Some: the result of a `.map(|r| ..)` closure, or the operand of Some(..) in the body
+        # (`let r = self.rank_1(i)?; Some(..)`); compared as a polynomial: i + 1 - <rank_1 result>
+        from .poly import poly, pstr
+        cands = []
         for c in facts.closures_of(b.path):
             rep.analysed_body(c)
             for bb in c.reachable(0):
                 for s in c.stmts(bb):
                     if s['k'] == 'assign' and 'pj' not in s['p'] and s['p']['l'] == 0:
-                        expr = fmt(strip_casts(c.expr_rvalue(s['r'], inline_user=True)))
-        if ok and expr and expr.startswith('Sub') and 'Add' in expr and ', 1)' in expr:
+                        cands.append((c, c.expr_rvalue(s['r'], inline_user=True)))
+        for bb in b.reachable(0):
+            for s in b.stmts(bb):
+                if s['k'] == 'assign' and s['r']['k'] == 'agg' and s['r'].get('variant') == 'Some' and s['r']['ops']:
+                    cands.append((b, b.expr_operand(s['r']['ops'][0], inline_user=True)))
+        iname = b.local_name(2) or ''
+        good, expr = False, None
+        for c, e in cands:
+            pe = poly(e)
+            expr = pstr(pe)
+            if pe.get((), 0) != 1:
+                continue
+            rest = {m: v for m, v in pe.items() if m != ()}
+            pos = [m for m, v in rest.items() if v == 1 and len(m) == 1]
+            neg = [m for m, v in rest.items() if v == -1 and len(m) == 1]
+            if len(rest) == 2 and len(pos) == 1 and len(neg) == 1:
+                a_ok = re.fullmatch(r'(_1\.\^)?%s' % re.escape(iname), pos[0][0]) is not None
+                r_atom = neg[0][0]
+                r_ok = 'rank_1' in r_atom or (c is not b and r_atom == (c.local_name(2) or '_2'))
+                if a_ok and r_ok:
+                    good = True
+                    break
+        if ok and good:
             rep.ok(rule, key, '%s:%s' % (b.file, b.line), expr)
         else:
             rep.bad(rule, key, '%s:%s' % (b.file, b.line), 'rank_0 is not (i + 1) - rank_1(i): %s' % expr)
